@@ -124,6 +124,13 @@ def native(pid, mode, payload=None, timeout=int(os.environ.get("GVC_NATIVE_TIMEO
     return {"ok": False, "error": f"native harness gave no result (exit {p.returncode}): {p.stderr[-2000:]}"}
 
 
+def _owner(pid, ob):
+    m = re.match(r"(C\d\d)/", ob.get("name", ""))
+    if m and os.path.exists(os.path.join(ROOT, "gvc", "native", m.group(1).lower() + ".py")):
+        return m.group(1)
+    return pid
+
+
 def write_replay(pid, ob, native_result):
     os.makedirs(os.path.join(OUT, "replays"), exist_ok=True)
     h = hashlib.sha1((ob["name"] + json.dumps(ob.get("model"), sort_keys=True, default=str)).encode()).hexdigest()[:10]
@@ -226,17 +233,36 @@ def run_property(pid, tier, module, seed=0):
             skipped += 1          # listed in the evidence / report; native replay budget used up
             continue
         nat = None
+        own = _owner(pid, o)        # dependency obligations are replayed by the harness of the property that owns them
         if o.get("replay") is not None:
-            nat = native(pid, "replay", o["replay"])
+            nat = native(own, "replay", o["replay"])
         confirmed = bool(nat and nat.get("ok") and nat.get("confirmed"))
         if not confirmed and o.get("replay") is not None:
-            nat2 = native(pid, "search", o["replay"])
+            nat2 = native(own, "search", o["replay"])
             if nat2.get("ok") and nat2.get("confirmed"):
                 nat, confirmed = nat2, True
         path = write_replay(pid, o, nat)
         suffix = "" if confirmed else " no-failing-input-found"
         violations.append((o, path, confirmed))
         lines.append(f"VIOLATION property={pid} replay={path}{suffix}")
+    # an obligation that went undecided (the code left the supported subset, or the solver gave up) is tried natively on its OWN
+    # configuration first (bounded: replay request + neighbourhood search), then the property's stand-in grid runs as well
+    tried = 0
+    for o in undecided:
+        if o.get("replay") is None or tried >= 2 * MAX_REPLAYS or len(violations) >= MAX_REPLAYS:
+            continue
+        tried += 1
+        own = _owner(pid, o)
+        nat = native(own, "search", o["replay"])
+        if not (nat.get("ok") and nat.get("confirmed")):
+            nat = native(own, "replay", o["replay"])
+        if nat.get("ok") and nat.get("confirmed"):
+            fake = Ob(o["name"] + " [undecided -> native]", "bounded", "refuted", str(nat.get("detail"))[:400], replay=o["replay"])
+            if match_known(pid, fake, known):
+                continue
+            path = write_replay(pid, fake, nat)
+            violations.append((fake, path, True))
+            lines.append(f"VIOLATION property={pid} replay={path}")
     standin = None
     always = getattr(module, "NATIVE_ALWAYS", {}).get(tier)
     if need_standin or vac_problems or errors or always:
